@@ -503,9 +503,17 @@ def gen_co2(rng, n):
             data = pd.DataFrame({"year": yrs, "ppm": [rng.uniform(280, 900) for _ in yrs]})
             COVER["co2:custom_table"] += 1
         const = rng.random() < 0.5
+        # the flag as a user may hand it over: a Python bool, or a truthy / falsy value of another type (numpy.bool_ from a
+        # settings table, 1 / 0); the code tests `constant_conc is True` at BOTH sites (initialisation and season reset), so
+        # anything but the singleton True means "not constant" - the model gets that meaning
+        flag_obj = const
+        if rng.random() < 0.25:
+            flag_obj = rng.choice([np.bool_(True), np.bool_(False), 1, 0])
+            const = False
+            COVER["co2:flag_not_a_python_bool"] += 1
         cur = rng.choice([0.0, 0.0, 369.41, 420.0, rng.uniform(300, 2200), -5.0])
         ref = rng.choice([369.41, 369.41, 400.0])
-        co2 = CO2(ref_concentration=ref, current_concentration=cur, constant_conc=const, co2_data=data)
+        co2 = CO2(ref_concentration=ref, current_concentration=cur, constant_conc=flag_obj, co2_data=data)
         keep = data.copy(deep=True)
         exp, extra = [], []
         ys = list(range(sy, ey + 1))
